@@ -78,6 +78,7 @@ PROPS = {
                      "Sqlize.C01.indexes_with_dropped_columns", "Sqlize.Abs.Idx.plan_correct", "Sqlize.Abs.Idx.emitSup_correct", "Sqlize.Abs.Idx.dropCols_idxs",
                      "Sqlize.Table.walkIdx_refines_sup", "Sqlize.Spec.execAll_wf",
                      "Sqlize.C01.equal_column_untouched", "Sqlize.Table.walkCols_about", "Sqlize.Table.diffCols1_unchanged_mem",
+                     "Sqlize.C01.changed_column_modified", "Sqlize.perm_of_not_changed", "Sqlize.ckey_inj", "Sqlize.Table.diff_like", "Sqlize.Table.walkCols_modify",
                      "Sqlize.C01.equal_primary_key_untouched", "Sqlize.C01.tables_from_scripts", "Sqlize.Migration.migrate_tbl",
                      "Sqlize.Migration.diffTables2_appends"],
         "suites": [{"name": "pair"}],
@@ -92,8 +93,10 @@ PROPS = {
                        "into the new one unless a key is redefined in place (indexes_and_keys_from_scripts); with dropped columns the index statements printed with "
                        "the dropped-column list turn what the DROP COLUMNs leave of the old index list into the new one, unless an index is redefined while all its "
                        "old columns are dropped = the recorded finding (indexes_with_dropped_columns); a column with the same type and options (up to order) on both "
-                       "sides gets no column statement in either direction (equal_column_untouched, no inline PRIMARY KEY option). Not proved: a MODIFY for exactly the changed columns, the primary "
-                       "key, other dialects; the full statement Sqlize.C01.Statement(_partial) is decided on "
+                       "sides gets no column statement in either direction (equal_column_untouched, no inline PRIMARY KEY option), and conversely a column whose type or "
+                       "options (other than COMMENT) differ gets a MODIFY COLUMN the reference engine reads as the new side's column, the old side's on the way down "
+                       "(changed_column_modified). Not proved: a changed primary key (recorded finding), a COMMENT-only difference, the lift from one table to the whole schema, "
+                       "other dialects; the full statement Sqlize.C01.Statement(_partial) is decided on "
                        "every run by correspondence (model = code on state and text) plus the "
                        "executable predicate Spec.c01 (reference DDL engine) on the migration text the Go code printed.",
     },
@@ -104,7 +107,7 @@ PROPS = {
                      "Sqlize.C02.indexes_and_keys_from_scripts", "Sqlize.Abs.Idx.emitDown_correct", "Sqlize.Abs.Idx.emitDownKeep_correct",
                      "Sqlize.Table.walkIdx_refines_down", "Sqlize.Table.walkFk_refines_down",
                      "Sqlize.C02.indexes_and_keys_up_then_down", "Sqlize.Abs.Idx.up_then_down", "Sqlize.Abs.Idx.execAll_perm",
-                     "Sqlize.C02.tables_from_scripts", "Sqlize.Migration.migrate_tbl_down"],
+                     "Sqlize.C02.tables_from_scripts", "Sqlize.Migration.migrate_tbl_down", "Sqlize.C02.changed_column_reverted"],
         "suites": [{"name": "pair"}],
         "corr_points": ["load-old", "load-new", "state-old", "state-new", "Diff", "state-diff", "StringUp", "StringDown"],
         "rule": PAIR_RULE,
